@@ -143,6 +143,47 @@ fn process_variant(
     })
 }
 
+/// identifiers and lifetimes that occur in the types of the fields (attributes are not looked at;
+/// the name of a macro invoked in type position is not an occurrence of a parameter)
+fn mentioned_in_field_types(fields: &Fields) -> (HashSet<String>, HashSet<String>) {
+    fn scan(
+        tokens: TokenStream2,
+        idents: &mut HashSet<String>,
+        lifetimes: &mut HashSet<String>,
+    ) {
+        let mut after_quote = false;
+        let mut tokens = tokens.into_iter().peekable();
+        while let Some(token) = tokens.next() {
+            match token {
+                proc_macro2::TokenTree::Group(group) => {
+                    scan(group.stream(), idents, lifetimes);
+                    after_quote = false;
+                }
+                proc_macro2::TokenTree::Punct(punct) => after_quote = punct.as_char() == '\'',
+                proc_macro2::TokenTree::Ident(ident) => {
+                    let is_macro_name = matches!(
+                        tokens.peek(),
+                        Some(proc_macro2::TokenTree::Punct(punct)) if punct.as_char() == '!'
+                    );
+                    if after_quote {
+                        lifetimes.insert(ident.to_string());
+                    } else if !is_macro_name {
+                        idents.insert(ident.to_string());
+                    }
+                    after_quote = false;
+                }
+                proc_macro2::TokenTree::Literal(_) => after_quote = false,
+            }
+        }
+    }
+    let mut idents = HashSet::new();
+    let mut lifetimes = HashSet::new();
+    for field in fields {
+        scan(field.ty.to_token_stream(), &mut idents, &mut lifetimes);
+    }
+    (idents, lifetimes)
+}
+
 fn inner_struct_definition(
     variant: &Variant,
     cratename: &Path,
@@ -153,12 +194,62 @@ fn inner_struct_definition(
 
     let mut variant_schema_params_visitor = generics::FindTyParams::new(enum_generics);
     schema::visit_struct_fields_unconditional(&variant.fields, &mut variant_schema_params_visitor);
-    let variant_not_skipped_params = variant_schema_params_visitor
+    let mut variant_not_skipped_params = variant_schema_params_visitor
         .process_for_params()
         .into_iter()
         .collect::<HashSet<_>>();
-    let inner_struct_generics =
+    // The inner struct has to declare every generic parameter its field types mention (the
+    // visitor above leaves out what needs no bound, e.g. the argument of `PhantomData<T>`), and
+    // must not declare a lifetime they do not mention (an unused lifetime is an error).
+    let (mentioned_idents, mentioned_lifetimes) = mentioned_in_field_types(&variant.fields);
+    for param in enum_generics.type_params() {
+        if mentioned_idents.contains(&param.ident.to_string()) {
+            variant_not_skipped_params.insert(param.ident.clone());
+        }
+    }
+    let mut inner_struct_generics =
         schema::filter_used_params(enum_generics, variant_not_skipped_params);
+    let is_mentioned =
+        |lifetime: &syn::Lifetime| mentioned_lifetimes.contains(&lifetime.ident.to_string());
+    inner_struct_generics.params = inner_struct_generics
+        .params
+        .into_iter()
+        .filter(|param| match param {
+            syn::GenericParam::Lifetime(param) => is_mentioned(&param.lifetime),
+            _ => true,
+        })
+        .map(|mut param| {
+            // bounds on the parameters that stay must not name a lifetime that went away
+            match &mut param {
+                syn::GenericParam::Lifetime(param) => {
+                    param.bounds = std::mem::take(&mut param.bounds)
+                        .into_iter()
+                        .filter(|bound| is_mentioned(bound))
+                        .collect();
+                }
+                syn::GenericParam::Type(param) => {
+                    param.bounds = std::mem::take(&mut param.bounds)
+                        .into_iter()
+                        .filter(|bound| match bound {
+                            syn::TypeParamBound::Lifetime(bound) => is_mentioned(bound),
+                            _ => true,
+                        })
+                        .collect();
+                }
+                syn::GenericParam::Const(_) => {}
+            }
+            param
+        })
+        .collect();
+    if let Some(clause) = inner_struct_generics.where_clause.as_mut() {
+        clause.predicates = std::mem::take(&mut clause.predicates)
+            .into_iter()
+            .filter(|predicate| match predicate {
+                syn::WherePredicate::Lifetime(predicate) => is_mentioned(&predicate.lifetime),
+                _ => true,
+            })
+            .collect();
+    }
 
     let inner_struct = ItemStruct {
         attrs: vec![],
